@@ -299,9 +299,10 @@ def history(r, rec, trace, steps, hid):
                     pass
             if kk == "Function" and printable:
                 singles.append((kk + ":applied", o(printable[0])))
-    if len(singles) >= 2:
-        singles.append(("list", [o for _, o in singles[:3]]))
-        singles.append(("tuple", tuple(o for _, o in singles[:2])))
+    exprs = [o for lb, o in singles if lb != "Function:bare"]   # (an unapplied function is not an expression)
+    if len(exprs) >= 2:
+        singles.append(("list", exprs[:3]))
+        singles.append(("tuple", tuple(exprs[:2])))
     for label, o in singles:
         for nm_, fn in (("print_expression", print_expression), ("code_str", code_str), ("latex_str", latex_str)):
             if label == "Function:bare" and nm_ == "print_expression":
